@@ -2,10 +2,14 @@ package main
 
 import (
 	"fmt"
+	"os"
 	"runtime"
 	"strings"
 
 	"simrt"
+
+	"github.com/jsightapi/jsight-api-core/core"
+	"github.com/jsightapi/jsight-api-core/directive"
 
 	"github.com/jsightapi/jsight-api-core/jerr"
 	"github.com/jsightapi/jsight-api-core/kit"
@@ -81,10 +85,20 @@ func errInfo(je *jerr.JApiError) (ei *ErrInfo, bad string) {
 	if je.File == nil {
 		ei.nilFile = true
 	} else {
-		ei.File = je.File.Name()
+		ei.File = relCwd(je.File.Name())
 		ei.content = append([]byte(nil), je.File.Content().Data()...)
 	}
 	ei.Full = je.Error()
+	if cwdPrefix != "" {
+		// a root given as an absolute path (or as ../<cwd name>/...): the worker's directory is not
+		// part of the observation
+		wd := strings.TrimSuffix(cwdPrefix, "/")
+		up := "../" + wd[strings.LastIndexByte(wd, '/')+1:] + "/"
+		for _, pre := range []string{cwdPrefix, up} {
+			ei.Full = strings.ReplaceAll(ei.Full, pre, "")
+			ei.Msg = strings.ReplaceAll(ei.Msg, pre, "")
+		}
+	}
 	return ei, ""
 }
 
@@ -162,16 +176,56 @@ func guardInner(o *Outcome, f func() (kit.JApi, *jerr.JApiError)) {
 	o.japi = &j
 }
 
+// bannedOption turns directive keywords into a core.WithBannedDirectives option (nil for none).
+func bannedOption(banned []string) []core.Option {
+	if len(banned) == 0 {
+		return nil
+	}
+	var dd []directive.Enumeration
+	for _, b := range banned {
+		if de, err := directive.NewDirectiveType(b); err == nil {
+			dd = append(dd, de)
+		}
+	}
+	return []core.Option{core.WithBannedDirectives(dd...)}
+}
+
 // BuildPath builds a project whose root is read from disk.
-func BuildPath(root string) *Outcome {
+func BuildPath(root string, banned ...string) *Outcome {
 	o := &Outcome{}
-	guard(o, func() (kit.JApi, *jerr.JApiError) { return kit.NewJapi(root) })
+	guard(o, func() (kit.JApi, *jerr.JApiError) { return kit.NewJapi(root, bannedOption(banned)...) })
 	return o
 }
 
 // BuildMem builds a project whose root content is handed over in memory (INCLUDEs still come from disk).
-func BuildMem(name string, data []byte) *Outcome {
+func BuildMem(name string, data []byte, banned ...string) *Outcome {
 	o := &Outcome{}
-	guard(o, func() (kit.JApi, *jerr.JApiError) { return kit.NewJApiFromFile(fs.NewFile(name, data)) })
+	guard(o, func() (kit.JApi, *jerr.JApiError) { return kit.NewJApiFromFile(fs.NewFile(name, data), bannedOption(banned)...) })
 	return o
+}
+
+// spellRoot returns the root path of the project directory in one of several spellings that
+// all denote the same file.
+func spellRoot(root string, as int) string {
+	p := projDir + "/" + root
+	switch as {
+	case 1:
+		return "./" + p
+	case 2:
+		return projDir + "/./" + root
+	case 3:
+		return "a//p/" + root
+	case 4:
+		return "a/q/../p/" + root
+	case 5:
+		if wd, err := os.Getwd(); err == nil {
+			return wd + "/" + p
+		}
+	case 6:
+		// up and down again: ../<name of the working directory>/a/p/root.jst
+		if wd, err := os.Getwd(); err == nil {
+			return "../" + wd[strings.LastIndexByte(wd, '/')+1:] + "/" + p
+		}
+	}
+	return p
 }
